@@ -475,9 +475,10 @@ def collapse_one(
 
         # Now keyvalues.
         # First extract a rotated angles value, handling the special "pitch" and "yaw" keys.
-        angles = Angle.from_str(new_ent['angles'])
+        # These may be given through $variables, like any other keyvalue.
+        angles = Angle.from_str(inst.fixup.substitute(new_ent['angles'], ''))
         if 'pitch' in new_ent:
-            angles.pitch = srctools.conv_float(new_ent['pitch'])
+            angles.pitch = srctools.conv_float(inst.fixup.substitute(new_ent['pitch'], ''))
             try:
                 kv = ent_type.kv['pitch']
             except KeyError:
@@ -486,7 +487,7 @@ def collapse_one(
                 if kv.type is ValueTypes.ANGLE_NEG_PITCH:
                     angles.pitch = -angles.pitch
         if 'yaw' in new_ent:
-            angles.yaw = srctools.conv_float(new_ent['yaw'])
+            angles.yaw = srctools.conv_float(inst.fixup.substitute(new_ent['yaw'], ''))
         angles @= orient
 
         for key, value in new_ent.items():
@@ -502,7 +503,11 @@ def collapse_one(
             elif folded == 'yaw':
                 new_ent['yaw'] = format_float(angles.yaw)
                 continue
-            elif folded in {'classname', 'hammerid', 'spawnflags'}:
+            elif folded == 'classname':
+                continue
+            elif folded in {'hammerid', 'spawnflags'}:
+                # Not transformed in any way, but $variables still apply.
+                new_ent[key] = value
                 continue
 
             try:
@@ -547,6 +552,8 @@ def collapse_one(
         # Remap fixups on instance entities too.
         for key, value in new_ent.fixup.items():
             # Match Valve's bad logic here. TODO: Load the InstanceFile and remap accordingly.
+            value = inst.fixup.substitute(value, '')
+            new_ent.fixup[key] = value
             if value and value[0] not in '@!-.0123456789':
                 new_ent.fixup[key] = inst.fixup_name(value)
 
